@@ -730,6 +730,15 @@ def rule_link_test(ctx: Ctx, rule: str) -> None:
            repo.loc('glob', repo.cls('glob', '_GlobPart').node), 'pattern, is_magic, is_globstar, is_globstarlong, dir_only, is_drive', str(fields))
 
 
+def _innermost_loop(root: ast.AST, node: ast.AST) -> ast.AST | None:
+    best = None
+    for l in ast.walk(root):
+        if isinstance(l, (ast.For, ast.While)) and any(x is node for x in ast.walk(l)) and l is not node:
+            if best is None or any(x is l for x in ast.walk(best)):
+                best = l
+    return best
+
+
 def rule_fs_match_links(ctx: Ctx, rule: str) -> None:
     ctx.text(rule, 'matcher side: in _fs_match the symlink inspection runs only when not follow, iterates all captured groups, and '
                    'skips only the last part of a capture that ends the path; a symlink found makes the match fail')
@@ -752,6 +761,17 @@ def rule_fs_match_links(ctx: Ctx, rule: str) -> None:
     ctx.ob(rule, '_wcmatch:_Match._fs_match/at_end', ok3, repo.loc('_wcmatch', fm.node), 'at_end = m.end(i) == len(filename) - 1', str(ok3))
     res = [s for s in walk_no_nested(fm.node) if isinstance(s, ast.Assign) and norm_src(s) == 'matched = not is_link']
     ctx.ob(rule, '_wcmatch:_Match._fs_match/link-fails-match', len(res) == 1, repo.loc('_wcmatch', fm.node), 'matched = not is_link', str(len(res)))
+    # once a symlink has been found the verdict is final: every loop around the assignment is left at once
+    if res:
+        encl = [l for l in walk_no_nested(fm.node) if isinstance(l, ast.For) and any(x is res[0] for x in ast.walk(l))]
+        leaves = []
+        for l in encl:
+            has = any(isinstance(x, ast.If) and norm_src(x.test) == 'not matched' and any(isinstance(b, ast.Break) for b in x.body) and
+                      _innermost_loop(l, x) is l for x in ast.walk(l))
+            leaves.append(has)
+        ctx.ob(rule, '_wcmatch:_Match._fs_match/link-verdict-is-final', len(encl) == 2 and all(leaves), repo.loc('_wcmatch', res[0]),
+               '`if not matched: break` in both the per-part loop and the per-capture loop', f'loops={len(encl)}, leaves={leaves}',
+               witness="globmatch('link/x/real/deep/y.txt', '**/x/**/*.txt', G, REALPATH) must be False: a later symlink-free `**` must not revive the match")
     lk = sorted(norm_src(s.value) for s in walk_no_nested(fm.node) if isinstance(s, ast.Assign) and norm_src(s.targets[0]) == 'is_link')
     want = sorted(['symlinks.get(key, None)', 'os.path.islink(base)', 'False', 'stat.S_ISLNK(st.st_mode)'])
     ctx.ob(rule, '_wcmatch:_Match._fs_match/is_link-definitions', lk == want, repo.loc('_wcmatch', fm.node), str(want), str(lk))
